@@ -57,6 +57,7 @@ structure Case where
   eqT : Bool := false
   defT : Bool := false
   nEqHit : Nat := 0
+  negAccepted : Bool := false               -- a constructor did not reject a negative delay
   births : Array Birth := #[]
   deaths : Array Death := #[]
   fired : Array Fired := #[]
@@ -152,7 +153,7 @@ def judge : M Unit := do
     let b := if k < c.real.size then c.real[k]! else "<end>"
     IO.println s!"MISMATCH {c.name} trace at={k} model=[{a}] real=[{b}] tags="
     nbad := nbad + 1
-  let neg := c.σ.badArg
+  let neg := c.negAccepted
   for m in c.bad do
     verdict c.name "not_after_destroy" m (causeTags neg false false)
     nbad := nbad + 1
@@ -333,8 +334,10 @@ def processLine (line : String) : M Unit := do
       match d.c.inCall with
       | some (true, id) =>
         finishOp
+        let wasNeg := d.c.births.any (fun b => b.id == id && b.cs < 0)
         modify fun d => { d with c := { d.c with
           inCall := none
+          negAccepted := d.c.negAccepted || wasNeg
           births := d.c.births.map (fun b => if b.id == id then { b with tRet := some d.c.now } else b) } }
         pushReal s!"constructed {id}"
       | some (false, id) =>
@@ -348,7 +351,10 @@ def processLine (line : String) : M Unit := do
       match d.w.lastCreate with
       | some (id, delta) =>
         let w := d.w
-        modify fun d => { d with w := { w with alive := w.alive.push (id, w.gW + delta), lastCreate := none } }
+        -- a zero delta is a threshold already reached: the constructor must reject it
+        let bad := if !w.lapped && delta == 0
+          then w.bad.push s!"fires_iff_reached id={id} delta=0 accepted although the threshold is already reached tags=weight_equals_threshold_exactly" else w.bad
+        modify fun d => { d with w := { w with alive := w.alive.push (id, w.gW + delta), lastCreate := none, bad := bad } }
       | none => wCloseCheck
   | ["exc", cls] =>
     let d ← get
@@ -356,7 +362,10 @@ def processLine (line : String) : M Unit := do
       match d.c.inCall with
       | some (_, id) =>
         finishOp
-        modify fun d => { d with c := { d.c with inCall := none } }
+        let wasNeg := cls != "invalid_argument" && d.c.births.any (fun b => b.id == id && b.cs < 0)
+        modify fun d => { d with c := { d.c with
+          inCall := none
+          negAccepted := d.c.negAccepted || wasNeg } }
         pushReal (if cls == "invalid_argument" then s!"rejected {id}" else if cls == "runtime_error" then s!"threw {id}" else s!"exc {cls} {id}")
       | none => pure ()
     else if d.w.active then
@@ -364,7 +373,7 @@ def processLine (line : String) : M Unit := do
       | some (id, delta) =>
         let w := d.w
         -- inside the comparison window a delta below 2^63 must be accepted
-        let bad := if !w.lapped && cls == "invalid_argument" && delta < H63
+        let bad := if !w.lapped && cls == "invalid_argument" && 0 < delta && delta < H63
           then w.bad.push s!"fires_iff_reached id={id} delta={delta} rejected as already reached tags=rejected_inside_window" else w.bad
         modify fun d => { d with w := { w with lastCreate := none, bad := bad, real := w.real.push s!"rejected {id}" } }
       | none =>
@@ -381,7 +390,7 @@ def processLine (line : String) : M Unit := do
   | "crash" :: rest =>
     let d ← get
     let nm := if d.c.active then d.c.name else if d.w.active then d.w.name else "?"
-    let tags := if d.c.active then causeTags d.c.σ.badArg false false else []
+    let tags := if d.c.active then causeTags d.c.negAccepted false false else []
     IO.println s!"MISMATCH {nm} crash {" ".intercalate rest} tags={",".intercalate tags}"
     modify fun d => { d with c := {}, w := {}, nBad := d.nBad + 1 }
   -- weight watcher
